@@ -541,3 +541,77 @@ func (m *ServerModel) sitesInOrder(root *FuncInfo) []*Site {
 	})
 	return out
 }
+
+// resultName returns the canonical name (in root's frame) of the variable that receives result
+// #idx (negative: counted from the end) of the first assignment in root whose single
+// right-hand side satisfies pred ("" if there is none).  Rules use it instead of assuming
+// what a local is called ("ok", "err", "remaining").
+func (m *ServerModel) resultName(root *FuncInfo, idx int, pred func(rhs ast.Expr) bool) string {
+	return resultNameIn(m.L, root, m.resolver(root), idx, pred)
+}
+
+func resultNameIn(l *Loaded, root *FuncInfo, res *resolver, idx int, pred func(rhs ast.Expr) bool) string {
+	out := ""
+	ast.Inspect(root.Decl, func(n ast.Node) bool {
+		if out != "" {
+			return false
+		}
+		var lhs []ast.Expr
+		var rhs ast.Expr
+		switch v := n.(type) {
+		case *ast.AssignStmt:
+			if len(v.Rhs) == 1 {
+				lhs, rhs = v.Lhs, v.Rhs[0]
+			}
+		case *ast.ValueSpec:
+			if len(v.Values) == 1 {
+				for _, nm := range v.Names {
+					lhs = append(lhs, nm)
+				}
+				rhs = v.Values[0]
+			}
+		}
+		if rhs == nil || !pred(unparen(rhs)) {
+			return true
+		}
+		i := idx
+		if i < 0 {
+			i = len(lhs) + i
+		}
+		if i >= 0 && i < len(lhs) {
+			if obj := objOf(res.info, lhs[i]); obj != nil {
+				out = res.nameOf(obj)
+			}
+		}
+		return true
+	})
+	return out
+}
+
+// isCallTo / isAssertTo: predicates for resultName.
+func isCallTo(info *types.Info, keys ...string) func(ast.Expr) bool {
+	return func(e ast.Expr) bool {
+		c, ok := e.(*ast.CallExpr)
+		if !ok {
+			return false
+		}
+		k := calleeKey(info, c)
+		for _, want := range keys {
+			if k == want {
+				return true
+			}
+		}
+		return false
+	}
+}
+
+func isAssertTo(info *types.Info, typeSuffix string) func(ast.Expr) bool {
+	return func(e ast.Expr) bool {
+		ta, ok := e.(*ast.TypeAssertExpr)
+		if !ok || ta.Type == nil {
+			return false
+		}
+		t := info.TypeOf(ta.Type)
+		return t != nil && strings.HasSuffix(types.TypeString(t, nil), typeSuffix)
+	}
+}
